@@ -23,6 +23,19 @@ def run(rep, tier):
     backends = ["model32", "noop", "dylib", "noop_tls", "dylib_tls"] if tier == "quick" else ["model32", "model32gi", "noop", "dylib", "noop_tls", "dylib_tls", "noop_trans", "model32_trans", "model32_dbg"]
     dbs = facts.load_core(backends, ["INVOKE", "PTR"], thorough=(tier == "thorough"))
     n = {"statics": 0, "lockset": 0, "atomic": 0, "tls": 0}
+    rep.rule("R-C18-publish", "a sandbox is visible to other threads (present in the process-wide list) only while its backend is initialised: appended after backend creation and the CREATED store, inside the unique "
+             "list guard; removed, existence-checked, before the backend is destroyed (shared analysis with C14's R-C14-registry): published earlier, another thread's example lookup reads a half-built backend without a lock")
+    from . import c14 as _c14
+    from ..report import RuleView
+    for db in dbs:
+        for f in db.functions:
+            if f["dep"] or "body" not in f or f["n"] not in ("rlbox::rlbox_sandbox::create_sandbox", "rlbox::rlbox_sandbox::destroy_sandbox"):
+                continue
+            inst_ = "%s | %s" % (db.label, f["full"][:150])
+            try:
+                (_c14.check_create if f["sn"] == "create_sandbox" else _c14.check_destroy)(RuleView(rep, {"R-C14-registry": "R-C18-publish"}), db, f, inst_, {})
+            except Inconclusive as ex:
+                rep.inconclusive("R-C18-publish", site(f), str(ex), inst_)
     for db in dbs:
         rep.units.append(db.label)
         label = db.label
